@@ -6,7 +6,7 @@ import corpus, gen_data
 RULE = ("(molecule, acyclic single bond between heavy atoms) pairs from corpus components (quick 90 molecules, thorough 2500) and a "
         "generated family (esters, amides, ethers, thioethers, phosphonates, boronic acids, N-N / N-O / S-halogen / O-halogen bonds): "
         "the two fragments are built by deleting the other side's atoms (index map under the generator's control, radicals closed with "
-        "the repository's own add_hydrogens_to_radicals) and handed to merge() as two compounds with one boundary each [mode A], and "
+        "the repository's own add_hydrogens_to_radicals; molecules that already carry a radical are skipped, the closing step would saturate it) and handed to merge() as two compounds with one boundary each [mode A], and "
         "each fragment alone with its boundary [mode B: completion by an expansion rule], and the two fragments together with spectator compounds (water, benzene) in every position of the set [mode C].  Oracle (RDKit): mode A reconstructs the "
         "original (canonical SMILES ignoring stereo) unless a restriction rule (no bond) is reported; in every mode the product is a valid "
         "molecule, carbons are conserved, heavy atoms = fragments + compounds named by the reported expansion rules.  Correspondence: "
@@ -138,6 +138,11 @@ def run(ctx):
         for smi in mols:
             m = Chem.MolFromSmiles(smi)
             if m is None or m.GetNumAtoms() > 40 or m.GetNumAtoms() < 3:
+                continue
+            if any(a.GetNumRadicalElectrons() for a in m.GetAtoms()):
+                # the fragment builder closes the cut with add_hydrogens_to_radicals, which would also saturate a radical the
+                # molecule already has: such a cut is not "the two fragments of the molecule" (found by the thorough tier, seed 2)
+                ctx.count("cuts", "open_shell_molecule_skipped")
                 continue
             ref = nostereo(smi)
             bonds = [b for b in m.GetBonds() if not b.IsInRing() and b.GetBondType() == Chem.BondType.SINGLE]
